@@ -58,7 +58,7 @@ PROPS = {
                                "constructor_names", "ignore_codes_upper", "prefilter_complete", "near_miss_inert",
                                "acceptAfter_iff", "list_complete", "constructor_complete", "packageonly_complete", "ignore_complete",
                                "list_sound", "constructor_sound"]),
-        "suites": ["gram", ("prog", {"focus": "ANN:IKTMP"})],
+        "suites": ["gram", ("prog", {"focus": "ANN:IKTMP"}), ("std", {"withmodel": "1", "focus": "ANN:IKTMP"})],
         "assumptions": [
             "comment texts are byte strings; RE2's \\s, \\w and the identifier classes are ASCII, '.' excludes only LF",
             "the regexes and the Aho-Corasick pre-filter are not translated into Lean: they are tied to the recogniser functions by the bounded-exhaustive + fuzz correspondence (as the property itself prescribes)",
@@ -69,7 +69,8 @@ PROPS = {
     },
     "C01": {
         "theorems": T("C01", ["immutable_exact", "siteDiag_iff", "immFieldHit_iff", "immNode_eq_sites", "immutable_silent_reads", "immutable_silent", "immutable_receiver_rule"]) + ["GGV.Model.Prog.immDecl_eq"],
-        "suites": [("prog", {"focus": "IMM,ANN:IKM"}), ("prog", {"focus": "IMM,ANN:IKM", "scan": "1", "testfiles": "1", "n": 30, "nocorpus": "1"})],
+        "suites": [("prog", {"focus": "IMM,ANN:IKM"}), ("prog", {"focus": "IMM,ANN:IKM", "scan": "1", "testfiles": "1", "n": 30, "nocorpus": "1"}),
+                   ("std", {"withmodel": "1", "focus": "IMM,ANN:IKM"})],
         "assumptions": [
             "programs are abstracted to APF: per declaration the preorder node list ast.Inspect visits, with go/types information attached; DeclShape (FuncDecl nodes only head func declarations) is go/ast's shape and is checked on every input (wf=ok)",
             "supported fragment as stated by the property: non-generic defined types, direct imports; write / use forms the property does not list are neither required nor forbidden",
@@ -79,7 +80,8 @@ PROPS = {
     },
     "C02": {
         "theorems": T("C02", ["constructor_exact", "ctorNode_eq_sites", "ctorHit_iff", "constructor_silent_var", "constructor_silent_unannotated", "constructor_silent_inside", "constructor_foreign_name_not_exempt", "ctor_names_from_grammar"]) + ["GGV.Model.Prog.ctorDecl_eq"],
-        "suites": [("prog", {"focus": "CTOR,ANN:K"}), ("prog", {"focus": "CTOR,ANN:K", "scan": "1", "testfiles": "1", "n": 30, "nocorpus": "1"})],
+        "suites": [("prog", {"focus": "CTOR,ANN:K"}), ("prog", {"focus": "CTOR,ANN:K", "scan": "1", "testfiles": "1", "n": 30, "nocorpus": "1"}),
+                   ("std", {"withmodel": "1", "focus": "CTOR,ANN:K"})],
         "assumptions": [
             "programs are abstracted to APF: per declaration the preorder node list ast.Inspect visits, with go/types information attached; DeclShape (FuncDecl nodes only head func declarations) is go/ast's shape and is checked on every input (wf=ok)",
             "supported fragment as stated by the property: non-generic defined types, direct imports; write / use forms the property does not list are neither required nor forbidden",
@@ -89,7 +91,8 @@ PROPS = {
     },
     "C03": {
         "theorems": T("C03", ["testonly_exact", "tonlFile_eq", "tonlWalk_decl", "tonlNode_eq", "testonly_test_files_silent", "testonly_context_prune", "testonly_same_name_not_reported", "testonly_first_use"]) + ["GGV.Model.Prog.mem_runEvs"],
-        "suites": [("prog", {"focus": "TONL,ANN:T"}), ("prog", {"focus": "TONL,ANN:T", "scan": "1", "testfiles": "1", "n": 30, "nocorpus": "1"})],
+        "suites": [("prog", {"focus": "TONL,ANN:T"}), ("prog", {"focus": "TONL,ANN:T", "scan": "1", "testfiles": "1", "n": 30, "nocorpus": "1"}),
+                   ("std", {"withmodel": "1", "focus": "TONL,ANN:T"})],
         "assumptions": [
             "programs are abstracted to APF: per declaration the preorder node list ast.Inspect visits, with go/types information attached; DeclShape (FuncDecl nodes only head func declarations) is go/ast's shape and is checked on every input (wf=ok)",
             "supported fragment as stated by the property: non-generic defined types, direct imports; write / use forms the property does not list are neither required nor forbidden",
@@ -99,7 +102,8 @@ PROPS = {
     },
     "C04": {
         "theorems": T("C04", ["packageonly_exact", "pkgoFile_eq", "pkgoNode_eq", "allow_union", "allowed_iff", "unannotated_silent", "declaring_always_allowed", "bare_only_D"]) + ["GGV.Model.Prog.mem_runEvs"],
-        "suites": [("prog", {"focus": "PKGO,ANN:P"}), ("prog", {"focus": "PKGO,ANN:P", "scan": "1", "testfiles": "1", "n": 30, "nocorpus": "1"})],
+        "suites": [("prog", {"focus": "PKGO,ANN:P"}), ("prog", {"focus": "PKGO,ANN:P", "scan": "1", "testfiles": "1", "n": 30, "nocorpus": "1"}),
+                   ("std", {"withmodel": "1", "focus": "PKGO,ANN:P"})],
         "assumptions": [
             "programs are abstracted to APF: per declaration the preorder node list ast.Inspect visits, with go/types information attached; DeclShape (FuncDecl nodes only head func declarations) is go/ast's shape and is checked on every input (wf=ok)",
             "supported fragment as stated by the property: non-generic defined types, direct imports; write / use forms the property does not list are neither required nor forbidden",
@@ -118,7 +122,7 @@ PROPS = {
     "C07": {
         "theorems": T("C07", ["scope_file", "scope_decl", "scope_stmt", "scope_stmt_none", "scope_line", "scope_line_after_decl", "inline_iff", "declIndex_spec",
                                "ignore_exact_report", "ignore_exact_detect", "marker_codes_upper", "raise_independent_of_comments", "ignoreOps_startsValid"]),
-        "suites": ["ignore"],
+        "suites": ["ignore", ("std", {"withmodel": "1", "focus": "IGN"})],
         "assumptions": ["scope theorems assume MonoCut / NextCut (in preorder, once a node starts at/after the comment all later nodes do): decidable, true of go/ast trees for comments inside bodies, and the markers of every generated program are compared with the real ReadIgnoreAnnotations",
                         "'the following statement' is formalised as the first node in preorder that starts after the comment (the node with the smallest start position after it, outermost), in its whole extent",
                         "marker starts are >= 1 (PosValid: comment positions and line starts are real positions)"],
@@ -141,7 +145,7 @@ PROPS = {
     "C10": {
         "theorems": T("C10", ["contains_index_safe", "contains_lookup_some", "render_total", "window_index_safe", "ignore_set_wellformed", "run_total"]),
         "suites": [("bin", {"mode": "crash"}), ("prog", {"focus": "PANIC", "n": 150}), ("prog", {"focus": "PANIC", "n": 60, "scan": "1", "testfiles": "1", "nocorpus": "1"}),
-                   ("excerpt", {"focus": "PANIC"})],
+                   ("excerpt", {"focus": "PANIC"}), ("std", {})],
         "binary": True,
         "assumptions": ["PARTIAL: panics inside go/types, go/packages, the drivers; memory exhaustion; scheduler hangs are outside the model", "termination of the modelled logic is Lean's structural recursion over finite lists"],
         "trusted_base": ["hand-written whole-program model GGV.Model.Prog, tied by the prog correspondence (real analyzers in-process vs model)", "APF extractor (go/ast + go/types, independent of gogreement)"],
@@ -187,7 +191,7 @@ PROPS = {
     },
     "C05": {
         "theorems": T("C05", ["importFind_none_iff", "importFind_alias_first", "cascade_exclusive", "missing_exact", "correct_is_silent", "match_iff_identical", "value_form_excludes_pointer_methods"]),
-        "suites": [("prog", {"impl": "1", "focus": "IMPL", "n": 100, "nocorpus": "1"}), ("prog", {"focus": "IMPL", "n": 40})],
+        "suites": [("prog", {"impl": "1", "focus": "IMPL", "n": 100, "nocorpus": "1"}), ("prog", {"focus": "IMPL", "n": 40}), ("std", {"withmodel": "1", "focus": "IMPL"})],
         "assumptions": [
             "go/types is the oracle the property names: method sets, Func.Id, types.Identical (signatures numbered up to it), types.Implements are computed by the extractor and handed to the model; the real tool's IMPL diagnostics (code, interface, listed methods) are compared with that oracle on every scenario",
             "a qualifier that resolves only through ImportMap.Find's exact-path / path-suffix fallbacks is Unspecified (the pinned suite demands the fallback): the specification follows the model there",
